@@ -561,7 +561,7 @@ def _getters_tabulate(ctx) -> bool | None:
     props = {k for k, f in meths.items() if any(core.dotted(d) == "property" for d in f.decorator_list)}
     helpers = {"is_leap": calendar.isleap, "is_long_year": lambda y: _dt.date(y, 12, 28).isocalendar()[1] == 53,
                "days_in_year": lambda y: 366 if calendar.isleap(y) else 365, "week_day": lambda y, mo, d: _dt.date(y, mo, d).isoweekday()}
-    glob = {**minieval.module_consts(m), "calendar": Stub(isleap=calendar.isleap, monthrange=calendar.monthrange, monthcalendar=calendar.monthcalendar),
+    glob = {**minieval.module_consts(m), "calendar": minieval.std_module("calendar"),
             "math": Stub(ceil=math.ceil, floor=math.floor), "WeekDay": wallstub.WEEKDAY, "pendulum": Stub(helpers=Stub(**helpers)),
             "Date": ClassStub(_new=_dt.date, _isa=lambda v: isinstance(v, (_dt.date, Obj))), "date": ClassStub(_new=_dt.date, _isa=lambda v: isinstance(v, (_dt.date, Obj)))}
     for st in m.tree.body:
@@ -640,7 +640,7 @@ def _prim_tabulate(ctx) -> None:
             return
         ctx.ob("PRIM.tabulated", f"py:{name}", not bad, f"{n} inputs: " + (f"wrong: {bad[:3]}" if bad else "equal to the standard library on every input"), m.loc(funcs[name]))
         if not bad:
-            ctx.established(("FORMULA", "LOCALTIME"), f"py:{name}", "PRIM.tabulated")
+            ctx.established(("FORMULA", "LOCALTIME", "CUMSEARCH.backward"), f"py:{name}", "PRIM.tabulated")
     tab("is_leap", [(y,) for y in years], lambda y: calendar.isleap(y), lambda a: f"is_leap({a[0]})")
     tab("days_in_year", [(y,) for y in years], lambda y: 366 if calendar.isleap(y) else 365, lambda a: f"days_in_year({a[0]})")
     tab("is_long_year", [(y,) for y in years], lambda y: _dt.date(y, 12, 28).isocalendar()[1] == 53, lambda a: f"is_long_year({a[0]})")
